@@ -112,7 +112,10 @@ def run_case(case: dict):
     torch.manual_seed(seed)
     np.random.seed(seed % (2 ** 32))
     random.seed(seed)
-    buf = PrioritizedReplayBuffer(max_size=m, alpha=float(alpha))
+    kw = {}
+    if case.get("dtype"):                      # documented constructor option: must not change indices or weights
+        kw["dtype"] = getattr(torch, case["dtype"])
+    buf = PrioritizedReplayBuffer(max_size=m, alpha=float(alpha), **kw)
     obs: list = [("lit", "ok")]
     lines = [f"seg new {m} {alpha}"]
     problems: list[str] = []
@@ -290,7 +293,37 @@ def run_case(case: dict):
                     us.append(F(r) * (T / B) + (T / B) * j)       # the exact mass the model uses
                 exact = exact and grid_exact(fl + [F(x) for x in us], T)
             tags.append("sample-exact" if exact else "sample-toleranced")
+            if case.get("dtype"):
+                tags.append("dtype-" + case["dtype"])
             # ---- oracle
+            if len(rs) != B and len(idxs) == B and all(0 <= i < n for i in idxs) and T > 0:
+                # The indices were not selected by B recorded stratified draws (a different source of randomness,
+                # or none at all), so "index i owns [prefix(i), prefix(i+1))" cannot be checked draw by draw:
+                # test P(i) ~ p_i^alpha by frequencies instead (stratified sampling has LOWER variance than the
+                # multinomial the statistic assumes, so this never alarms on proportional sampling).
+                tags.append("sample-frequency-probe")
+                K = 300
+                cnt: dict[int, int] = {}
+                for i in idxs:
+                    cnt[i] = cnt.get(i, 0) + 1
+                try:
+                    for _ in range(K - 1):
+                        for i in buf.sample(B, float(beta))["idxs"].reshape(-1).tolist():
+                            cnt[int(i)] = cnt.get(int(i), 0) + 1
+                except Exception as e:  # noqa: BLE001
+                    problems.append(f"repeated sample({B}, {beta}) raised {type(e).__name__}: {e}")
+                expd = [float(v / T) * B * K for v in fl[:n]]
+                big = [(cnt.get(i, 0), e) for i, e in enumerate(expd) if e >= 5]
+                small = [(cnt.get(i, 0), e) for i, e in enumerate(expd) if e < 5]
+                if small:
+                    big.append((sum(c for c, _ in small), sum(e for _, e in small)))
+                stat = sum((c - e) ** 2 / e for c, e in big if e > 0)
+                stat += sum(1e9 for c, e in big if e == 0 and c > 0)
+                if stat > 20 * max(1, len(big) - 1) + 200:
+                    problems.append(
+                        f"sample({B}) on masses {[float(v) for v in fl[:n]]} used {len(rs)} uniform draws; over {K} calls "
+                        f"index counts {[cnt.get(i, 0) for i in range(n)]} vs proportional expectation "
+                        f"{[round(e, 1) for e in expd]} (chi-square {stat:.1f}): P(i) is not proportional to p_i^alpha")
             if len(idxs) != B or len(ws) != B:
                 problems.append(f"sample({B}) returned {len(idxs)} indices / {len(ws)} weights")
             bad = [i for i in idxs if not 0 <= i < n]
@@ -600,7 +633,11 @@ def gen_case(rng: random.Random, tier: str) -> dict:
             ops.append([rng.choice(["sum", "min"]), s_, e_])
     if not any(o[0] == "sample" for o in ops):
         ops.append(["sample", rng.choice([1, 2, 4, 8]), rng.choice([0, 1, 0.4])])
-    return {"max_size": m, "alpha": alpha, "seed": rng.randrange(1 << 30), "ops": ops}
+    case = {"max_size": m, "alpha": alpha, "seed": rng.randrange(1 << 30), "ops": ops}
+    r = rng.random()
+    if r < 0.18:                               # the documented `dtype` constructor option, non-default
+        case["dtype"] = "float16" if r < 0.07 else "bfloat16" if r < 0.12 else "float64"
+    return case
 
 
 def shrink(chk: Check, case: dict, by_oracle: bool) -> dict:
